@@ -295,18 +295,33 @@ def judge_vector(ctx, v, units, pkind, X, tkind='array'):
         cmp('levels_log_spaced', 'pressure_levels:after-all-reads', at(model.pressure.pressure_profile_levels, k), 10.0 ** v['lev'][k], k)
 
 
+def judge_vector_safely(ctx, v, units, pkind, X, tkind):
+    """an exception of the implementation while a vector is built / read is a verdict for that vector"""
+    try:
+        judge_vector(ctx, v, units, pkind, X, tkind)
+    except Machinery:
+        raise
+    except Exception as e:
+        import traceback
+        where = traceback.extract_tb(e.__traceback__)[-1]
+        ctx.verdict('implementation_raised', False,
+                    cls='%s@%s:%s:vector:%s:T=%s' % (type(e).__name__, os.path.basename(where.filename), where.name,
+                                                    pkind if pkind == 'simple' else pkind['klass'], tkind),
+                    detail='%s: %s (n=%d)' % (type(e).__name__, e, v['n']), vector=dict(v, units=units, pkind=pkind, tkind=tkind))
+
+
 def run_vectors(ctx, vecs, X):
     if not vecs:
         raise Machinery('no vectors exported')
     for j, v in enumerate(vecs):
         units = UNIT_SETS[j % len(UNIT_SETS)]
-        judge_vector(ctx, v, units, 'simple', X, told_kind(v, j))
+        judge_vector_safely(ctx, v, units, 'simple', X, told_kind(v, j))
         if v['n'] >= 2:
             # the spec's input options (orientation x reverse flag) in turn, through both classes
             nopt = len(v['inputs'])
             pk = dict(klass='array' if (j // nopt) % 2 == 0 else 'file', opt=j % nopt,
                       unit=FILE_UNITS[(j // (2 * nopt)) % len(FILE_UNITS)], layout=(j // 3) % len(FILE_LAYOUTS))
-            judge_vector(ctx, v, units, pk, X, told_kind(v, j // 2 + 3))
+            judge_vector_safely(ctx, v, units, pk, X, told_kind(v, j // 2 + 3))
 
 
 # --------------------------------------------------------------------------- projection
@@ -977,7 +992,7 @@ def structure(model, C):
                 stored={k: np.asarray(v) for k, v in gen.items() if k in LAYER_KEYS})
 
 
-def history_scenarios(X):
+def history_scenarios(X, ctx=None):
     from .. import history
     C = X['C']
 
@@ -1032,8 +1047,16 @@ def history_scenarios(X):
             else:
                 m = X['TransmissionModel'](new_path_method=(self.mkind == 'transmission-new-path'), **common)
             add_contributions(m, self.contributions, 1e2)
-            m.build()
-            m._c11_changed, m._c11_observed = False, 0
+            m._c11_changed, m._c11_observed, m._c11_err = False, 0, None
+            try:
+                m.build()
+            except Exception as e:
+                # building a model whose settings are inside the quantifier raised: a verdict (not a failure of the
+                # machinery); the object stays in the walk, its observations are digested as the exception
+                m._c11_err = e
+                if ctx is not None:
+                    ctx.verdict('implementation_raised', False, cls='%s@history:%s:build' % (type(e).__name__, self.name),
+                                detail='%s: %s (settings %r)' % (type(e).__name__, e, c), vector=dict(history=self.name, init=list(v), trail=[]))
             return m
 
         def set(self, m, d, value, values):
@@ -1041,6 +1064,8 @@ def history_scenarios(X):
             m._c11_changed = True
 
         def observe(self, m):
+            if m._c11_err is not None and not m._c11_changed:
+                raise m._c11_err
             if m._c11_changed or m._c11_observed:
                 evaluate(m, EVAL_OPS[(m._c11_observed + self.n) % len(EVAL_OPS)])
             else:
@@ -1150,7 +1175,7 @@ def run(ctx):
     finally:
         cleanup_tmp()
     from .. import history
-    nh = history.run_history(ctx, history_scenarios(X), 8 if q else 60)
+    nh = history.run_history(ctx, history_scenarios(X, ctx), 8 if q else 60)
     ctx.note('wall: design-level TLC + import %.0f s, vectors %.0f s, traces %.0f s, history %.0f s' % (t1 - t0, t2 - t1, t3 - t2, time.time() - t3))
     ctx.note('binding C: %d history walks on long-lived models (planet: Guillot2010 + TwoLayerGas / grid: Rodgers2000 + TwoPointGas / one-layer: default components / emission: NPoint + PowerGas), every model evaluated before its structure is read' % nh)
 
@@ -1173,8 +1198,8 @@ def _replay(ctx, violations, X):
             replay_history(ctx, v, X)
             continue
         if not vec.get('trace'):
-            judge_vector(ctx, {k: vec[k] for k in vec if k not in ('units', 'pkind', 'tkind')}, vec['units'], vec['pkind'], X,
-                         vec.get('tkind', 'array'))
+            judge_vector_safely(ctx, {k: vec[k] for k in vec if k not in ('units', 'pkind', 'tkind')}, vec['units'], vec['pkind'], X,
+                                vec.get('tkind', 'array'))
             continue
         key = (vec['sub'], vec['n'], vec['pkind'])
         if vec.get('build'):
